@@ -23,7 +23,8 @@ class C16(Spec):
             "(items of 1..3 lines, previews of 1..2 lines, 0..9 ancestors, 0..12 replies) with random keys, status lines in every "
             "mode, and resizes to heights 2..50 and widths 5..120 after every few keys: the frame on the screen after each key is "
             "compared rune for rune with Ui.last_frame (view of the state the frame was computed from) and its line count with the "
-            "terminal height. non-trivial = prefix or suffix had to be trimmed or padded / the frame carried a status line or followed a resize.")
+            "terminal height. Also resizes WHILE A PAGE IS LOADING (the fetch held by a silent server, the initial load included): the page that "
+            "arrives and every later frame have the height the terminal has then. non-trivial = prefix or suffix had to be trimmed or padded / the frame carried a status line or followed a resize.")
     assumptions = ["heights >= 1 for CenterVertically, >= 2 for frames with a status line (the property's range)"]
 
     def batches(self, rng, tier):
@@ -77,7 +78,26 @@ class C16(Spec):
                 else:
                     keys.append(ord(rng.choice("jjkkg hl ")))
             cases.append(c07.ui_case(w, keys, preload=rng.choice((0, 1, 2, 3)), width=rng.choice((60, 30, 10)), height=rng.choice((2, 3, 10, 24)), feeds=feeds))
-        b = Batch("c16-ui", cases, config="[media]\nhook = [\"vdump\", \"%url\"]\n", env=env, timeout=1200,
+        # the terminal is resized WHILE A PAGE IS LOADING (the fetch is held by a silent server): the page that arrives, and every frame
+        # after it, must have the height the terminal has then
+        import netgen
+        hbase = netgen.pick_port_base(rng)
+        for idx in range(30 if tier == "quick" else 1500):
+            w = c07.thread_world(rng)
+            a, b2 = 200 + (idx // 250) % 50, idx % 250 + 1
+            hold_url = "https://127.77.%d.%d:%d/held" % (a, b2, hbase + 9)
+            startup = rng.random() < 0.3
+            keys = [(262, a, b2, hbase + 9)]
+            if not startup:
+                keys += [ord(":")] + [ord(c) for c in "open " + hold_url] + [13]
+            for _ in range(rng.randint(1, 4)):
+                keys.append((258, rng.choice((20, 60)), rng.choice((2, 3, 5, 9, 24, 31))))
+                if rng.random() < 0.3:
+                    keys.append(ord(rng.choice("jk\x1b")))
+            keys.append(263)
+            keys += [ord(rng.choice("hlj")) for _ in range(rng.randint(1, 3))]
+            cases.append(c07.ui_case(w, keys, preload=rng.choice((1, 2)), height=rng.choice((10, 24)), feeds=feeds, startup=startup))
+        b = Batch("c16-ui", cases, config="[media]\nhook = [\"vdump\", \"%url\"]\n[network]\ntimeout_seconds = 0\n", env=env, timeout=1200,
                   correspondence="frames of ui.State == Ui.last_frame, line count == terminal height")
         b.parallel = False
         runner.run_batches(self, scratch, binary, [b], report)
